@@ -122,8 +122,7 @@ Inv_Core ==
             /\ (case.nmaxi > 0 => Len(d) <= case.nmaxi)
             /\ RangeOf(d) \subseteq Admissible(case)
             \* "the nmaxi closest when there is a single sector"
-            /\ (case.nsect = 1 /\ Cardinality(Admissible(case)) >= case.nmini /\ case.nmaxi > 0
-                  => RangeOf(d) = Closest(case, Admissible(case), case.nmaxi))
+            /\ SingleSectorRule(case)
 \* ball-tree pre-selection: with the isotropic metric (Euclidean order = rank order), a single
 \* sector and nmaxi not exceeding the number of samples, the side condition of the property is
 \* sufficient for the transcription of the ball path to yield the definition.  (Beyond these
